@@ -8,10 +8,12 @@ import (
 	_ "verifharness/internal/c19"
 	_ "verifharness/internal/chain"
 	_ "verifharness/internal/config"
+	_ "verifharness/internal/ctxcheck"
 	_ "verifharness/internal/faults"
 	_ "verifharness/internal/fc"
 	_ "verifharness/internal/genesischeck"
 	_ "verifharness/internal/gossip"
+	_ "verifharness/internal/pool"
 	_ "verifharness/internal/pubkeycache"
 	_ "verifharness/internal/shuffle"
 	_ "verifharness/internal/ssz"
